@@ -138,6 +138,9 @@ class IterationExec:
         e = astx.strip_wrappers(e, ("tuple", "list"))
         if isinstance(e, ast.Name) and (e.id in self.lists or isinstance(state.get(e.id), ListVal)):
             return self.get_list(e.id, state)
+        if isinstance(e, ast.Name) and isinstance(state.get(e.id), ast.AST):
+            # a sequence held in a plain local (a tuple grown with +): its value is already in entry values
+            return self.as_list(state[e.id], {})
         if isinstance(e, ast.List):
             return ListVal([("elem", self.sub(x, state)) for x in e.elts])
         if isinstance(e, ast.BinOp) and isinstance(e.op, ast.Add):
